@@ -1076,6 +1076,14 @@ func (w *World) loopCallWriteCheck(fr *Frame, st *State, targets []modTarget) {
 				for _, pt := range pol.targets {
 					alts = append(alts, eq(q, pt))
 				}
+				if t.memberAt != nil {
+					// "q is some element" with the element's index named by the generator, and the quantified facts
+					// on the path instantiated at that index (left to the solvers this was seed dependent)
+					sk := w.sc.fresh("sk.ei", SInt)
+					w.instantiateIntFactsAt(sk)
+					w.oblige("loop.write", name, st.cond, implies(t.memberAt(q, sk), or(alts...)), false, props)
+					continue
+				}
 				w.oblige("loop.write", name, st.cond, implies(t.member(q), or(alts...)), false, props)
 				continue
 			}
